@@ -337,7 +337,22 @@ class TokenSource:
     def input(self, text):
         pass
 
+    asi_close = False       # when set: 7.9's layout-independent cases (before `}` and at end of input) are emulated
+
     def auto_semi(self, token):
+        if self.asi_close and (token is None or (token.type == 'RBRACE' and token is not getattr(self, '_asi_for', None))):
+            import ply.lex as lex
+            t = lex.LexToken()
+            t.type, t.value, t.lineno, t.lexpos = 'AUTOSEMI', ';', 1, (token.lexpos if token else self.lexpos)
+            t.colno = 0
+            if token is not None:
+                self._asi_for = token
+                self.toks.insert(self.i, token)
+            else:
+                if getattr(self, '_asi_eof', False):
+                    return None
+                self._asi_eof = True
+            return t
         return None
 
     def backtracked_token(self, pos=1):
@@ -347,13 +362,14 @@ class TokenSource:
         return lexpos + 1
 
 
-def engine_accepts(word, sp):
+def engine_accepts(word, sp, asi_close=False):
     """run the real LRParser + real actions on the token string; returns (accepted, repr or error)"""
     from calmjs.parse.parsers import es5
     from calmjs.parse.exceptions import ECMASyntaxError, ProductionError
     from calmjs.parse.walkers import ReprWalker
     p = _ENGINE.get('p') or _ENGINE.setdefault('p', boot.fresh_parser())
     src = TokenSource(word, sp)
+    src.asi_close = asi_close
     p.lexer = src
     try:
         tree = p.parser.parse('', lexer=src, tracking=True)
